@@ -16,8 +16,20 @@ Fixpoint prefixb (p s : string) : bool :=
 Fixpoint substrb (p s : string) : bool :=
   (prefixb p s || match s with EmptyString => false | String _ s' => substrb p s' end)%bool.
 
+(* compiled WITH flags: re.I on a literal = substring test on the ASCII-lowercased strings;
+   re.M with '^' + literal = some line (start of string or just after a newline) starts with the literal *)
+Definition lower_ascii (a : ascii) : ascii :=
+  let n := nat_of_ascii a in if (Nat.leb 65 n && Nat.leb n 90)%bool then ascii_of_nat (n + 32) else a.
+Fixpoint lower (s : string) : string := match s with EmptyString => EmptyString | String a r => String (lower_ascii a) (lower r) end.
+Fixpoint line_prefixb (p s : string) (at_start : bool) : bool :=
+  match s with
+  | EmptyString => (at_start && prefixb p EmptyString)%bool
+  | String a r => ((at_start && prefixb p s) || line_prefixb p r (Ascii.eqb a "010"%char))%bool
+  end.
 (* a column condition: a value (None and NaN are special), a list of admissible values, a compiled (literal) regex *)
-Inductive cond := CVal (x : cell) | CList (l : list cell) | CRegex (p : string).
+Inductive cond := CVal (x : cell) | CList (l : list cell) | CRegex (p : string)
+  | CRegexI (p : string)      (* re.compile(re.escape(p), re.I) *)
+  | CRegexM (p : string).     (* re.compile('^' + re.escape(p), re.M) *)
 (* _row_check / the arms of inc *)
 Definition cond_check (cd : cond) (v : cell) : bool :=
   match cd with
@@ -27,6 +39,8 @@ Definition cond_check (cd : cond) (v : cell) : bool :=
   | CVal x => py_in v [x]
   | CList l => py_in v l
   | CRegex p => match v with CStr s => substrb p s | _ => false end
+  | CRegexI p => match v with CStr s => substrb (lower p) (lower s) | _ => false end
+  | CRegexM p => match v with CStr s => line_prefixb p s true | _ => false end
   end.
 (* truth value of a cell returned by a callable *)
 Definition truthy (c : cell) : bool :=
